@@ -69,30 +69,76 @@ Proof.
   unfold drop_h. apply filter_sorted. eauto.
 Qed.
 
-(* the dispatcher consumes its snapshot front to back: one iteration of the loop of _run_handlers_sequential logs
-   the invocation of the head of the remaining list before anything else *)
-Lemma run_hs_head_first i d h rem s :
-  exists s2, log s2 = LInvoke (d_psn d) (h_id h) (match d_kwq d with Some q => q | None => length (heap s) end) :: log s /\
+(* One iteration of the loop of _run_handlers_sequential.
+   - condition false on the merged kwargs: the handler is skipped without a trace;
+   - otherwise the FIRST thing that happens is the invocation of the head of the remaining list (the snapshot is
+     consumed front to back) with the queue object [registered `queue` kwarg, else posted `queue` kwarg, else a fresh
+     QueuedEvent] and with the data kwargs [merged_kw d h] = posted kwargs overridden by the registered ones. *)
+Lemma run_hs_iteration i d h rem s :
+  (cond_ok (h_cond h) (merged_kw d h) = false -> run_hs i d (h :: rem) s = run_hs i d rem s) /\
+  (cond_ok (h_cond h) (merged_kw d h) = true ->
+   let q := match h_kwq h with Some q => q | None => match d_kwq d with Some q => q | None => length (heap s) end end in
+   exists s2, log s2 = LArgs (kw_update (d_kw d) (h_kw h)) :: LInvoke (d_psn d) (h_id h) q :: log s /\
     run_hs i d (h :: rem) s =
-      (let q := match d_kwq d with Some q => q | None => length (heap s) end in
-       let s3 := match h_body h with HSync acts => exec_actions (Some q) acts s2 | HAsync aw => async_adapter q aw s2 end in
+      (let s3 := match h_body h with HSync acts => exec_actions (Some q) acts s2 | HAsync aw => async_adapter q aw s2 end in
        if waiter_of q s3 then
-         set_disp i (mkD (d_psn d) (d_ev d) (d_kwq d) (d_snap d) rem (DSleep q (nev s3)))
+         set_disp i (mkD (d_psn d) (d_ev d) (d_kwq d) (d_kw d) (d_snap d) rem (DSleep q (nev s3)))
            (upd_nev (upd_heap s3 (set_nth q (mkQ (q_waiter match nth_error (heap s3) q with Some o => o | None => mkQ true None end)
                                                   (Some (nev s3))) (heap s3))) (S (nev s3)))
-       else run_hs i d rem s3).
+       else run_hs i d rem s3)).
 Proof.
-  eexists. split; [|cbn [run_hs]; reflexivity]. destruct (d_kwq d); reflexivity.
+  split; intros C; cbn [run_hs]; rewrite C; cbn [negb]; [reflexivity|].
+  unfold merged_queue. destruct (h_kwq h) as [q1|]; [|destruct (d_kwq d) as [q2|]];
+    cbv zeta; eexists; (split; [|reflexivity]); reflexivity.
 Qed.
+
+(* dict semantics of the merge: a key registered with the handler wins (last binding), other keys pass through *)
+Lemma kw_get_set k k' v kw : kw_get k (kw_set k' v kw) = if k =? k' then Some v else kw_get k kw.
+Proof.
+  induction kw as [|[k0 v0] kw IH]; cbn.
+  - destruct (k =? k'); reflexivity.
+  - destruct (k' =? k0) eqn:E1; cbn.
+    + apply Z.eqb_eq in E1. subst k0. destruct (k =? k'); reflexivity.
+    + destruct (k' <? k0) eqn:E2; cbn.
+      * destruct (k =? k'); reflexivity.
+      * rewrite IH. destruct (k =? k0) eqn:E3; [|reflexivity].
+        apply Z.eqb_eq in E3. subst k0. rewrite Z.eqb_sym, E1. reflexivity.
+Qed.
+
+Definition last_binding (k : Z) (d : list (Z * Z)) (dflt : option Z) : option Z :=
+  fold_left (fun acc kv => if k =? fst kv then Some (snd kv) else acc) d dflt.
+
+Lemma kw_get_update k : forall d kw, kw_get k (kw_update kw d) = last_binding k d (kw_get k kw).
+Proof.
+  unfold kw_update, last_binding. induction d as [|[k' v] d IH]; intros kw; cbn; [reflexivity|].
+  rewrite IH, kw_get_set. reflexivity.
+Qed.
+
+Lemma queue_handler_kwargs_l :
+  (forall k d kw, kw_get k (kw_update kw d) = last_binding k d (kw_get k kw)) /\
+  (forall i d h rem s,
+    (cond_ok (h_cond h) (merged_kw d h) = false -> run_hs i d (h :: rem) s = run_hs i d rem s) /\
+    (cond_ok (h_cond h) (merged_kw d h) = true ->
+     let q := match h_kwq h with Some q => q | None => match d_kwq d with Some q => q | None => length (heap s) end end in
+     exists s2, log s2 = LArgs (kw_update (d_kw d) (h_kw h)) :: LInvoke (d_psn d) (h_id h) q :: log s /\
+      run_hs i d (h :: rem) s =
+        (let s3 := match h_body h with HSync acts => exec_actions (Some q) acts s2 | HAsync aw => async_adapter q aw s2 end in
+         if waiter_of q s3 then
+           set_disp i (mkD (d_psn d) (d_ev d) (d_kwq d) (d_kw d) (d_snap d) rem (DSleep q (nev s3)))
+             (upd_nev (upd_heap s3 (set_nth q (mkQ (q_waiter match nth_error (heap s3) q with Some o => o | None => mkQ true None end)
+                                                    (Some (nev s3))) (heap s3))) (S (nev s3)))
+         else run_hs i d rem s3))).
+Proof. split; [exact kw_get_update|exact run_hs_iteration]. Qed.
 
 (* ---------------------------------------------------------------------------------------------- *)
 (* satisfiability examples *)
 
 (* two queue events in flight, nested post, waits released later in reverse order *)
 Definition ex_regs : list (Z * handler) :=
-  [(1, mkH 1 5 (HSync [AWait; APostQ 2 false])); (1, mkH 2 1 (HAsync true)); (2, mkH 3 1 (HSync [AWait]))].
-Definition ex_env1 : list (list action) := [[APostQ 1 false]].
-Definition ex_env2 : list (list action) := [[APostQ 1 false]; [AClearNth 1]; [AClearNth 0]; [AClearNth 0]].
+  [(1, mkH 1 5 [(1, 7)] None None (HSync [AWait; APostQ 2 false [(2, 3)]])); (1, mkH 2 1 [] None (Some (1, 4)) (HAsync true));
+   (2, mkH 3 1 [] None None (HSync [AWait]))].
+Definition ex_env1 : list (list action) := [[APostQ 1 false [(1, 4)]]].
+Definition ex_env2 : list (list action) := [[APostQ 1 false [(1, 4)]]; [AClearNth 1]; [AClearNth 0]; [AClearNth 0]].
 
 Lemma ex_fresh : forallb (fun eh => fresh_h (snd eh)) ex_regs = true /\
                  forallb (forallb fresh_action) ex_env2 = true /\ forallb (forallb fresh_action) ex_env1 = true.
@@ -159,3 +205,11 @@ Lemma registry_priority_sorted_l :
   (forall h l, exists pre post, l = pre ++ post /\ insert_h h l = pre ++ h :: post /\
      Forall (fun x => h_prio x >= h_prio h) pre /\ (forall y post', post = y :: post' -> h_prio y < h_prio h)).
 Proof. split; [exact init_reg_sorted_l|split; [exact reg_remove_sorted_l|exact insert_h_stable]]. Qed.
+
+(* handler 1 is registered with k1=7 and is posted k1=4: it sees 7; handler 2 has condition k1==4 on the posted value *)
+Lemma ex_args :
+  let s := env_run false default_fuel ex_env2 (init_state ex_regs) in
+  existsb (obs_eqb (LArgs [(1, 7)])) (log s) = true /\ existsb (obs_eqb (LArgs [(1, 4)])) (log s) = true /\
+  existsb (obs_eqb (LInvoke 0 2 2)) (log s) = true /\
+  last_binding 1 [(1, 7)] (kw_get 1 [(1, 4)]) = Some 7.
+Proof. vm_compute. repeat split. Qed.
